@@ -123,6 +123,8 @@ class Ctx:
             return self.const(v)
         if hasattr(v, "item"):
             v = v.item()
+            if isinstance(v, (S, Ext)):
+                return v
             if isinstance(v, (bool, int)):
                 return self.const(int(v))
         f = float(v)
